@@ -360,6 +360,7 @@ def run(ctx):
                     ctx.report(r_tgt, "start-end", "the TextPositionSelector takes start/end from `%s` / `%s`, not from begin()/end() of one text selection" % tuple(args[1:3] if len(args) > 2 else ("?", "?")), o.file, n["l"])
 
     ns_rule(ctx, syn)
+    once_rule(ctx, syn)
 
     # ---------------- SEP (separator / bracket typestate on the string accumulators)
     r_sep = ctx.rule("C17.SEP", "on every path through the exporter, members and elements are separated by exactly one comma, brackets are balanced and every function returns a complete JSON value (or member list)")
@@ -458,3 +459,68 @@ def ns_rule(ctx, syn):
                 ctx.report(r, "irreversible", "with the namespace(s) %s the key IRI %r is written as %r, which expands through the exported @context to a different IRI: the body member no longer names the annotation's key" % (ns, iri, got), f.file, f.line, {"namespaces": ns, "iri": iri, "written": got})
                 return
     ctx.floor(r, n, 30, "compaction evaluations")
+
+
+# ---------------------------------------------------------------------- ONCE
+def once_rule(ctx, syn):
+    """escaping is not idempotent (a backslash becomes two): text that holds an escaped part must not be escaped again.
+    Per function: E = names whose value may contain escaped text (result of the escaper, or built from such a name by
+    replace / format! / push_str / += / clone / to_string); a call of the escaper on an expression that mentions a name
+    in E escapes that part twice."""
+    r = ctx.rule("C17.ONCE", "no text is passed through the JSON escaper twice: an argument of json_escape never contains a value that was already escaped")
+    n = 0
+    for f in syn.fns:
+        if f.file != FILE or not f.body or f.name in ESCAPERS:
+            continue
+
+        def is_esc_call(e):
+            return e.get("k") == "call" and strip(e["func"]).get("k") == "path" and strip(e["func"])["path"][-1] in ESCAPERS
+
+        def names_in(e):
+            return set(x["path"][0] for x in walk(e) if x.get("k") == "path" and len(x["path"]) == 1)
+
+        def tainted_expr(e, E):
+            """may the value of e contain escaped text?"""
+            for x in walk(e):
+                if is_esc_call(x):
+                    return True
+            return bool(names_in(e) & E)
+        E = set()
+        changed = True
+        guard = 0
+        while changed and guard < 10:
+            changed = False
+            guard += 1
+            for x in walk(f.body):
+                k = x.get("k")
+                tgt = None
+                src = None
+                if k == "let" and x.get("init") is not None:
+                    nm = pat_names(x["pat"])
+                    if len(nm) == 1:
+                        tgt, src = nm[0], x["init"]
+                elif k == "assign":
+                    l = strip(x["left"])
+                    if l.get("k") == "path" and len(l["path"]) == 1:
+                        tgt, src = l["path"][0], x["right"]
+                elif k == "binary" and x.get("op") == "+=":
+                    l = strip(x["left"])
+                    if l.get("k") == "path" and len(l["path"]) == 1:
+                        tgt, src = l["path"][0], x["right"]
+                elif k == "mcall" and x["method"] in ("push_str", "push", "insert_str", "extend"):
+                    l = strip(x["recv"])
+                    if l.get("k") == "path" and len(l["path"]) == 1 and x["args"]:
+                        tgt, src = l["path"][0], x["args"][-1]
+                if tgt and tgt not in E and tainted_expr(src, E):
+                    E.add(tgt)
+                    changed = True
+        for x in walk(f.body):
+            if is_esc_call(x) and x["args"]:
+                n += 1
+                arg = x["args"][0]
+                r.hit("%s#%d" % (f.name, n), sample={"in": f.name, "escapes": unparse(arg)[:60]})
+                inner = [y for y in walk(arg) if y is not x and is_esc_call(y)]
+                hit = sorted(names_in(arg) & E)
+                if inner or hit:
+                    ctx.report(r, "%s|%s" % (f.name, (hit or ["nested"])[0]), "%s escapes `%s`, which already contains escaped text (%s): a backslash, quote or control character in it is escaped twice and the exported string names something else" % (f.name, unparse(arg)[:60], ", ".join(hit) if hit else "a nested json_escape"), f.file, x.get("l"))
+    ctx.floor(r, n, 15, "calls of the JSON escaper")
